@@ -299,11 +299,11 @@ def C37_norm_f32_full : Prop :=
     ∀ y ∈ normalize f32Ops s, F32.isNaN y = false ∧ F32.lt y (F32.ofNat 0) = false ∧ F32.lt (F32.ofNat 1) y = false
 
 /-- `[f32::MAX, 0.0, -f32::MAX]` -/
-def overflowWitness : List F := [.fin false 16777215 104, .fin false 0 (-149), .fin true 16777215 104]
+def overflowWitness : List F := [.fin false (16777215 * 2 ^ 253), .fin false 0, .fin true (16777215 * 2 ^ 253)]
 
 /-- what the model (and the real `normalize_scores`, replayed by the harness) returns on it -/
 theorem overflowWitness_normalized :
-    normalize f32Ops overflowWitness = [.nan, .fin false 0 (-149), .fin false 0 (-149)] := by decide
+    normalize f32Ops overflowWitness = [.nan, .fin false 0, .fin false 0] := by decide
 
 /-- **C37_counterexample** — with f32 extremes the maximum is mapped to NaN -/
 theorem C37_counterexample : ¬ C37_norm_f32_full := by
@@ -315,10 +315,10 @@ theorem C37_counterexample : ¬ C37_norm_f32_full := by
 
 section examples
 open Mv.F32
-private def f1 : F := .fin false 8388608 (-23)      -- 1.0
-private def fhalf : F := .fin false 8388608 (-24)   -- 0.5
-private def fq : F := .fin false 8388608 (-25)      -- 0.25
-private def fe : F := .fin false 8388608 (-26)      -- 0.125
+private def f1 : F := .fin false (2 ^ 149)      -- 1.0
+private def fhalf : F := .fin false (2 ^ 148)   -- 0.5
+private def fq : F := .fin false (2 ^ 147)      -- 0.25
+private def fe : F := .fin false (2 ^ 146)      -- 0.125
 
 /-- C37_bounds / C37_threshold on binary32: a cut inside the list, threshold 0.5 -/
 example : findAdaptiveCutoff f32Ops [f1, fhalf, fq, fe] { minResults := 1, strategy := .absolute fhalf, normalize := false }
